@@ -70,7 +70,7 @@ func init() {
 	add("prec100", cty.NumberVal(new(big.Float).SetPrec(100).Quo(big.NewFloat(1), big.NewFloat(3))))
 }
 
-func PoolSize() int { return len(pool) }
+func PoolSize() int    { return len(pool) }
 func PoolAt(i int) Num { return pool[i%len(pool)] }
 
 // GenNum picks from the pool or builds a random (mantissa, exponent, precision) number.
